@@ -39,7 +39,7 @@ def envelope(n):
     A character yields up to ~16 fragments, every recursion level strictly shrinks its list and a pass
     over k items makes at most k^2 attempts, so attempts are O(n^3) and depth O(n) by construction; the
     constants are > 15x the largest ratios observed on the unchanged tree (see evidence maxima)."""
-    return 64 * (n + 4) ** 3, min(4 * (n + 4), 50000)
+    return min(64 * (n + 4) ** 3, 2 ** 63), min(4 * (n + 4), 50000)
 
 
 def settings_for(rng):
@@ -67,7 +67,12 @@ def check_case(ctx, case):
     kw = dict(case.get('kw', {}))
     n = sum(1 for c in inp if not c.isspace())
     sb, db = envelope(n)
-    ctx.warm()
+    if case.get('cold'):
+        # the very first conversion of a fresh process: the lazily built tables are built inside this call
+        ctx.driver().restart()
+        ctx.tag('first_conversions_of_a_process')
+    else:
+        ctx.warm()
     r = ctx.conv(inp, step_budget=sb, depth_budget=db, watchdog=case.get('watchdog', 120.0), **kw)
     drawn = r.ok and any(t in r.out for t in ('<line', '<text', '<path', '<rect class="s', '<rect class="b', '<circle', '<polygon', '<g>'))
     ctx.note(key_of(inp, sorted(kw.items())), drawn, 'family_' + case.get('family', '?'), 'entry_%d' % kw.get('entry', 3))
@@ -199,6 +204,42 @@ def fam_grammar(rng):
     return ''.join(rng.choice(GRAMMAR) for _ in range(rng.randint(1, 25)))
 
 
+def fam_connected(rng, cells):
+    """ONE group of about `cells` connected characters (what matters to anything that walks a group cell by cell)"""
+    k = rng.randrange(5)
+    if k in (1, 3):
+        # text pages and rung columns cost about n^2 on the pinned tree (160 s for 130 000 cells): they stay at sizes that
+        # finish well inside the watchdog, the near-linear kinds carry the big sizes
+        cells = min(cells, 30000)
+    if k == 0:      # a fully ruled table
+        cw_ = rng.randint(1, 3)
+        cols = rng.randint(20, 120)
+        per_row = cols * (cw_ + 1) + 1 + cols + 1
+        nrows = max(2, cells // per_row)
+        top = '+' + ('-' * cw_ + '+') * cols
+        mid = '|' + (' ' * cw_ + '|') * cols
+        return '\n'.join([top] + [mid, top] * nrows) + '\n'
+    if k == 1:      # a page of text without blank lines
+        width = rng.randint(60, 200)
+        words = ['lorem', 'ipsum', 'sit', 'amet', 'k9', 'Zq', 'a']
+        rows = []
+        n = 0
+        while n < cells:
+            row = ''
+            while len(row) < width:
+                row += rng.choice(words) + ' '
+            rows.append(row.rstrip())
+            n += sum(1 for c in row if c != ' ')
+        return '\n'.join(rows) + '\n'
+    if k == 2:      # one long row
+        return rng.choice('-=~_ab+') * cells + '\n'
+    if k == 3:      # one long column with rungs
+        return '\n'.join(rng.choice(['|', '|', '+-', '|-']) for _ in range(min(cells, 10000))) + '\n'
+    side = int(cells ** 0.5) + 1   # a filled block
+    ch = rng.choice('+#xa')
+    return '\n'.join(ch * side for _ in range(side)) + '\n'
+
+
 def fam_stress(rng, big):
     k = rng.randrange(13)
     n = rng.choice([50, 200, 1000, 5000, 20000] if big else [20, 60, 150, 400])
@@ -323,6 +364,11 @@ def run_shard(ctx, shard):
             inp = fam_grammar(rng)
         elif fam == 'stress':
             inp = fam_stress(rng, shard.get('big', False))
+        elif fam == 'connected':
+            inp = fam_connected(rng, shard['cells'])
+        elif fam == 'cold':
+            # a big sheet of thousands of separate marks as the first conversion of a process
+            inp = gen.text_of(gen.page(rng, shard['groups']))
         elif fam == 'ladder':
             inp = fam_ladder(rng, shard['size'])
         elif fam == 'nesting':
@@ -332,9 +378,16 @@ def run_shard(ctx, shard):
         else:
             raise ValueError(fam)
         kw = settings_for(rng) if fam not in ('ladder', 'nesting') else {'entry': rng.choice([0, 2, 3])}
-        if fam == 'stress' and shard.get('big'):
+        if (fam == 'stress' and shard.get('big')) or fam == 'connected':
             kw = {'entry': rng.choice([0, 2, 3])}
         case = {'input': inp, 'kw': kw, 'family': fam}
+        if fam == 'cold':
+            case['cold'] = True
+            case['kw'] = {'entry': rng.choice([0, 3])}
+        if fam in ('connected', 'cold') or (fam == 'stress' and shard.get('big')):
+            # the biggest documents take up to half a minute on an idle machine: the wall-clock watchdog (whose second
+            # firing is reported as a hang) leaves a factor of 30, the step fuse is what bounds the work
+            case['watchdog'] = 900.0
         ctx.run_case(case)
         if i == 0:
             ctx.sample({'family': fam, 'kw': kw, 'input': inp[:300]})
@@ -468,6 +521,9 @@ def race_leg(run, binary, circles, nproc, ndocs):
         docs.append(fam(rng) if fam is not fam_dense else fam_dense(rng))
     for i in range(ndocs // 4):
         docs.append(fam_mutated(rng, circles))
+    # two big connected groups: the threads of the race process have the small default stack of spawned threads
+    docs.append(fam_connected(rng, 20000))
+    docs.append(fam_connected(rng, 40000))
     docs = [d.replace('\x1e', ' ') for d in docs]
     keys = [(i % 4 if i % 4 != 3 else 3, d, 'white', 'black', 8.0) for i, d in enumerate(docs)]
     os.makedirs(WORK, exist_ok=True)
@@ -479,7 +535,9 @@ def race_leg(run, binary, circles, nproc, ndocs):
     for k in range(nproc):
         T = (2, 4, 8, 16)[k % 4]
         out = os.path.join(WORK, 'c01-race-%d.bin' % k)
-        procs.append((T, out, subprocess.Popen([binary, 'race', str(T), cpath, out], env=env, stdout=subprocess.DEVNULL, stderr=subprocess.PIPE)))
+        # every other process gives its threads the 2 MiB stack a spawned thread has by default (a server's workers)
+        penv = dict(env, VERIF_THREAD_STACK=str(2 << 20)) if k % 2 else env
+        procs.append((T, out, subprocess.Popen([binary, 'race', str(T), cpath, out], env=penv, stdout=subprocess.DEVNULL, stderr=subprocess.PIPE)))
     n = 0
     for T, out, p in procs:
         try:
@@ -524,6 +582,8 @@ def execute(run):
             for i in range(k):
                 shards.append({'name': '%s-%d' % (fam, i), 'family': fam, 'n': n, 'corners': fam == 'grammar' and i == 0})
         shards += [{'name': 'stress-big-%d' % i, 'family': 'stress', 'n': 2, 'big': True} for i in range(8)]
+        shards += [{'name': 'connected-%d' % i, 'family': 'connected', 'n': 2, 'cells': [12000, 20000, 30000, 60000][i % 4]} for i in range(8)]
+        shards += [{'name': 'cold-%d' % i, 'family': 'cold', 'n': 1, 'groups': [3000, 6500, 8000, 10000][i % 4]} for i in range(4)]
         shards += [{'name': 'ladder-%d' % s, 'family': 'ladder', 'n': 1, 'size': s} for s in (1024, 2048, 4096)]
         shards += [{'name': 'nesting-%d' % i, 'family': 'nesting', 'n': 8} for i in range(4)]
     else:
@@ -532,6 +592,8 @@ def execute(run):
             for i in range(k):
                 shards.append({'name': '%s-%d' % (fam, i), 'family': fam, 'n': n, 'corners': fam == 'grammar' and i == 0})
         shards += [{'name': 'stress-big-%d' % i, 'family': 'stress', 'n': 6, 'big': True} for i in range(16)]
+        shards += [{'name': 'connected-%d' % i, 'family': 'connected', 'n': 5, 'cells': [12000, 30000, 70000, 130000][i % 4]} for i in range(20)]
+        shards += [{'name': 'cold-%d' % i, 'family': 'cold', 'n': 3, 'groups': [3000, 6500, 8000, 10000, 14000][i % 5]} for i in range(10)]
         shards += [{'name': 'ladder-%d-%d' % (s, j), 'family': 'ladder', 'n': 1, 'size': s} for s in (1024, 2048, 4096, 8192, 16384) for j in range(2)]
         shards += [{'name': 'nesting-%d' % i, 'family': 'nesting', 'n': 20} for i in range(8)]
     # long shards first so that the pool is balanced
